@@ -164,6 +164,9 @@ def run(ctx):
     from .shared import rule_name_selection, rule_flag_default
     rule_name_selection(ctx, r2, "the targets of `gwf cancel PATTERN...`")
     rule_flag_default(ctx, r2, "gwf.plugins.cancel:cancel", "--force", "cancelling every target would never ask for confirmation")
+    from .shared import rule_targets_argument, rule_calls_bind
+    rule_calls_bind(ctx, r2, ("gwf.plugins.cancel",))
+    rule_targets_argument(ctx, r2, "gwf.plugins.cancel:cancel", "`gwf cancel [NAMES]`")
     from .evalhelpers import eval_cancel
     from ..symeval import tok
     res, tb_cancel = eval_cancel(ctx)
